@@ -71,7 +71,19 @@ ConnectInputs ==
      : l \in {3, 4}, c \in BOOLEAN, k \in {0, 1, 300, 65535}, cid \in ClientIds, w \in Wills,
        hu \in BOOLEAN, hp \in BOOLEAN}
 
-ASSUME LemmaConnectAll == \A o \in ConnectInputs : LemmaConnect(o)
+(* long fields: the body crosses typical internal buffer sizes (128, 256, 512 bytes) at different fields *)
+Fill(b, n) == [i \in 1..n |-> b]
+LongWill == [has |-> TRUE, topic |-> Fill(119, 120), msg |-> Fill(98, 130), qos |-> 1, retain |-> TRUE]
+LongConnectInputs ==
+    {[level |-> 4, clean |-> c, keepalive |-> 60, clientid |-> cid,
+      hasWill |-> w.has, willTopic |-> w.topic, willMsg |-> w.msg, willQos |-> w.qos, willRetain |-> w.retain,
+      hasUser |-> hu, user |-> IF hu THEN Fill(117, ul) ELSE <<>>,
+      hasPass |-> hp, pass |-> IF hp THEN Fill(112, pl) ELSE <<>>]
+     : c \in BOOLEAN, cid \in {<<99>>, Fill(99, 23), Fill(99, 245), Fill(99, 300)}, w \in {NoWill, LongWill},
+       hu \in BOOLEAN, hp \in BOOLEAN, ul \in {6, 130}, pl \in {4, 300}}
+ConnectInputsAll == ConnectInputs \cup LongConnectInputs
+
+ASSUME LemmaConnectAll == \A o \in ConnectInputsAll : LemmaConnect(o)
 (* flag bits, spelled out once more for the reader: reserved bit 0 is never set,          *)
 (* will QoS / will retain are 0 without a will, credentials flags match the presence      *)
 ASSUME LemmaConnectFlags == \A o \in ConnectInputs : LET f == ConnectFlags(o) IN
@@ -80,7 +92,7 @@ ASSUME LemmaConnectFlags == \A o \in ConnectInputs : LET f == ConnectFlags(o) IN
     /\ (~o.hasWill => (f \div 8) % 8 = 0)
     /\ (o.hasWill => (f \div 8) % 4 = o.willQos /\ Bit(f, 5) = o.willRetain)
 
-ConnectVectors == LET q == SetToSeq(ConnectInputs) IN
+ConnectVectors == LET q == SetToSeq(ConnectInputsAll) IN
     [i \in DOMAIN q |-> [op |-> "connect", o |-> q[i], ok |-> ConnectOptsOK(q[i]), exp |-> Connect(q[i])]]
 
 (***************************************************************************)
